@@ -22,9 +22,19 @@ def with_extra(prop, run):
     def wrapped(ctx):
         for rule, text, floor, fn in EXTRA.get(prop, []):
             ctx.rule(rule, text, floor=floor)
-        run(ctx)
+        # an AnalysisError of one rule (anchor moved, idiom not modelled) must not hide what the OTHER rules of the property prove: it is deferred; finish()
+        # turns it into exit 2 unless some rule reports a new violation (a proven violation stands whatever else could not be evaluated)
+        if not hasattr(ctx, 'deferred'):
+            ctx.deferred = []
+        try:
+            run(ctx)
+        except AnalysisError as e:
+            ctx.deferred.append((prop + ' base rules', str(e)))
         for rule, text, floor, fn in EXTRA.get(prop, []):
-            fn(ctx, rule)
+            try:
+                fn(ctx, rule)
+            except AnalysisError as e:
+                ctx.deferred.append((rule, str(e)))
     wrapped.__wrapped__ = run
     return wrapped
 
@@ -4168,8 +4178,18 @@ def r10_11(ctx, rule):
     for meth in ('conflict', 'similar_insert'):
         fid = 'nbdime.merging.decisions:MergeDecisionBuilder.' + meth
         fn = repo.func(fid)
-        adds = [c for c in calls_in(fn, nested=False) if isinstance(c.func, ast.Attribute) and c.func.attr == 'add_decision' and
-                any(k.arg == 'conflict' and isinstance(k.value, ast.Constant) and k.value.value is True for k in c.keywords)]
+
+        def _adds(f, depth=0):
+            out = [c for c in calls_in(f, nested=False) if isinstance(c.func, ast.Attribute) and c.func.attr == 'add_decision' and
+                   any(k.arg == 'conflict' and isinstance(k.value, ast.Constant) and k.value.value is True for k in c.keywords)]
+            if not out and depth < 2:      # delegation to a sibling method of the builder
+                for c in calls_in(f, nested=False):
+                    if isinstance(c.func, ast.Attribute) and isinstance(c.func.value, ast.Name) and c.func.value.id == 'self':
+                        sib = 'nbdime.merging.decisions:MergeDecisionBuilder.' + c.func.attr
+                        if repo.has_func(sib):
+                            out += _adds(repo.func(sib), depth + 1)
+            return out
+        adds = _adds(fn)
         if not adds:
             raise AnalysisError('%s: the add_decision(conflict=True) call was not found' % fid)
         for c in adds:
@@ -4385,3 +4405,606 @@ def r14_21(ctx, rule):
                  'the catch-all never prints it' if ok else
                  '%r reaches the exclude set only through %s, which is shrunk when the option is off: with details ignored the catch-all printer then shows `execution_count` of '
                  'every inserted or deleted execute_result' % (f, sorted(mut)), calls[-1])
+
+
+@extra('C20', 'R20.18', 'an API endpoint answers only with what the library computed for THIS request: every self.finish()/self.write() of the diff and merge handlers is dominated by '
+       'the call of diff_notebooks / decide_notebook_merge (no shortcut path that answers without asking the library)', 2)
+def r20_18(ctx, rule):
+    from ..cfg import CFG
+    repo, cg = ctx.repo, ctx.cg
+    SRV = 'nbdime.webapp.nbdimeserver'
+    for fid, callee in ((SRV + ':ApiDiffHandler.post', 'nbdime.diffing.notebooks:diff_notebooks'),
+                        (SRV + ':ApiMergeHandler.post', 'nbdime.merging.notebooks:decide_notebook_merge')):
+        fn = repo.func(fid)
+        calls = [c for c in calls_in(fn, nested=False) if ('func', callee) in cg.resolve(c.func, fn)]
+        if not calls:
+            raise AnalysisError('%s no longer calls %s' % (fid, callee))
+        g = CFG(fn)
+        doms = [repo.stmt_of(c) for c in calls]
+        outs = [c for c in calls_in(fn, nested=False) if isinstance(c.func, ast.Attribute) and c.func.attr in ('finish', 'write') and dotted(c.func.value) == 'self']
+        if not outs:
+            raise AnalysisError('%s: no self.finish()/self.write() found' % fid)
+        for c in outs:
+            st = repo.stmt_of(c)
+            ok = g.dominated_by(st, doms)
+            ctx.inst(rule, fid, repo.norm(c)[:80], ok, 'answered after %s' % callee.split(':')[1] if ok else
+                     'this answer can be sent on a path that never called %s: the endpoint\'s result is not the library\'s (e.g. an "identical sides" shortcut returns no '
+                     'decisions although local == remote != base yields agreed decisions)' % callee.split(':')[1], c)
+
+
+@extra('C18', 'R18.15', 'disable() always asks git: every normal exit of the four disable functions is dominated by a git-config call on the scope\'s file (no early return decided '
+       'from the process\'s working directory or other local state -- git resolves the repository itself, e.g. from a sub-directory)', 4)
+def r18_15(ctx, rule):
+    from ..cfg import CFG
+    repo, cg = ctx.repo, ctx.cg
+    for mod in ('mergedriver', 'diffdriver', 'mergetool', 'difftool'):
+        fid = 'nbdime.vcs.git.%s:disable' % mod
+        fn = repo.func(fid)
+        gits = []
+        for c in calls_in(fn, nested=False):
+            names = [t[1] for t in cg.resolve(c.func, fn) if t[0] == 'ext']
+            if any(n.startswith('subprocess.') for n in names) or (dotted(c.func) or '').split('.')[-1] in ('check_call', 'check_output', 'call', 'run', 'Popen'):
+                gits.append(c)
+        if not gits:
+            raise AnalysisError('%s: no git call found' % fid)
+        g = CFG(fn)
+        ok = g.dominated_by(g.EXIT, [repo.stmt_of(c) for c in gits])
+        ctx.inst(rule, fid, '%d git call(s)' % len(gits), ok, 'every normal exit passed a git-config call' if ok else
+                 'disable() can return without having asked git at all: the registration stays in place although the command reports success', fn)
+
+
+@extra('C03', 'R03.31', 'two-sided insertions are compared before anything is decided about them: in _split_addrange every decision (conflict / onesided / agreement) is dominated '
+       'by the diff of the local against the remote items -- conflict() asserts that its two diffs differ, so a conflict registered without that comparison makes the merge of '
+       'two identical insertions raise', 3)
+def r03_31(ctx, rule):
+    from ..cfg import CFG
+    repo, cg = ctx.repo, ctx.cg
+    fid = 'nbdime.merging.generic:_split_addrange'
+    fn = repo.func(fid)
+    ps = [a.arg for a in fn.args.args]
+    diffs = [c for c in calls_in(fn, nested=False)
+             if any(t[0] == 'func' and t[1].split(':')[1] in ('diff', 'diff_lists', 'diff_sequence_multilevel') for t in cg.resolve(c.func, fn))
+             and len(c.args) >= 2 and all(isinstance(a, ast.Name) and a.id in ps for a in c.args[:2])]
+    if not diffs:
+        raise AnalysisError('_split_addrange: the diff of the local against the remote items was not found')
+    g = CFG(fn)
+    doms = [repo.stmt_of(c) for c in diffs]
+    decs = [c for c in calls_in(fn, nested=False) if isinstance(c.func, ast.Attribute) and
+            c.func.attr in ('conflict', 'onesided', 'agreement', 'local_then_remote', 'remote_then_local', 'custom', 'add_decision', 'similar_insert')]
+    if len(decs) < 3:
+        raise AnalysisError('_split_addrange: fewer decision registrations than expected')
+    for c in decs:
+        ok = g.dominated_by(repo.stmt_of(c), doms)
+        ctx.inst(rule, fid, repo.norm(c)[:80], ok, 'decided after the comparison' if ok else
+                 'this decision can be registered without the local and the remote insertion having been compared: for identical insertions (reachable whenever the rest of the '
+                 'chunk differs: A/AP, AP/A, AR/A, ...) conflict() raises "agreed merges should not be conflicted" and the merge fails under every strategy', c)
+
+
+def _r_split_index(ctx, rule, mods, what):
+    """X.split(...)[k] / X.splitlines()[k] with a constant k other than 0 / -1: the element need not exist (IndexError) -- the slice form [k:] cannot fail."""
+    repo = ctx.repo
+
+    def is_split(v):
+        return isinstance(v, ast.Call) and isinstance(v.func, ast.Attribute) and v.func.attr in ('split', 'rsplit', 'splitlines')
+    n_fn = n_sub = 0
+    for fid, fn in sorted(repo.functions.items()):
+        if fid.split(':')[0] not in mods:
+            continue
+        n_fn += 1
+        defs = {}
+        for n in walk_no_nested(fn):
+            if isinstance(n, ast.Assign) and len(n.targets) == 1 and isinstance(n.targets[0], ast.Name):
+                defs.setdefault(n.targets[0].id, []).append(n.value)
+        lens = {a.id for n in walk_no_nested(fn) if isinstance(n, ast.Call) and isinstance(n.func, ast.Name) and n.func.id == 'len'
+                for a in n.args if isinstance(a, ast.Name)}
+        for n in walk_no_nested(fn):
+            if not (isinstance(n, ast.Subscript) and isinstance(n.ctx, ast.Load)):
+                continue
+            k = const_val(n.slice)
+            if isinstance(n.slice, ast.UnaryOp) and isinstance(n.slice.op, ast.USub) and isinstance(const_val(n.slice.operand), int):
+                k = -const_val(n.slice.operand)
+            if not isinstance(k, int) or isinstance(k, bool):
+                continue
+            v = n.value
+            direct = is_split(v)
+            via = isinstance(v, ast.Name) and len(defs.get(v.id, [])) == 1 and is_split(defs[v.id][0]) and v.id not in lens
+            if not (direct or via):
+                continue
+            n_sub += 1
+            ok = k in (0, -1)
+            ctx.inst(rule, fid, repo.norm(n)[:80], ok, 'element 0 / -1 of a split always exists' if ok else
+                     'element %d of the split need not exist: for a text with fewer separators (an empty rendering, a header-less diff) this raises IndexError %s' % (k, what), n)
+    ctx.inst(rule, ', '.join(sorted(mods)), '%d function(s), %d constant-index subscript(s) on split results' % (n_fn, n_sub), True,
+             'all analysed', None, nontrivial=True)
+    if n_fn == 0:
+        raise AnalysisError('no function analysed in %s' % (mods,))
+
+
+@extra('C16', 'R16.24', 'the renderers never take a fixed element (other than the first / last) of a split text: a slice [k:] cannot fail, an index [k] raises when the text is shorter '
+       '(e.g. the built-in differ returns an empty text for inputs that differ only in what splitlines() drops)', 1)
+def r16_24(ctx, rule):
+    _r_split_index(ctx, rule, {'nbdime.prettyprint'}, 'in the middle of the rendering')
+
+
+@extra('C07', 'R07.18', 'the text a merge tool printed reaches the cell source line for line: the merge renderers (merge_render, merge_render_with_git, merge_render_with_diff3, '
+       'external_merge_render) contain no line filter -- no loop or comprehension over the lines of a text that keeps a line only under a condition, no regex deletion; a filter '
+       'keyed on what a line looks like ("starts with |||||||") cannot tell a marker from a source line', 4)
+def r07_18(ctx, rule):
+    repo = ctx.repo
+
+    def is_lines(e):
+        return isinstance(e, ast.Call) and isinstance(e.func, ast.Attribute) and e.func.attr in ('splitlines', 'split', 'rsplit')
+    for nm in ('merge_render', 'merge_render_with_git', 'merge_render_with_diff3', 'external_merge_render'):
+        fid = 'nbdime.prettyprint:' + nm
+        fn = repo.func(fid)
+        lines_vars = {t.id for n in ast.walk(fn) if isinstance(n, ast.Assign) and is_lines(n.value) for t in n.targets if isinstance(t, ast.Name)}
+
+        def over_lines(e):
+            return is_lines(e) or (isinstance(e, ast.Name) and e.id in lines_vars) or \
+                (isinstance(e, ast.Call) and isinstance(e.func, ast.Name) and e.func.id in ('enumerate', 'iter', 'reversed') and e.args and over_lines(e.args[0]))
+        bad = []
+        n_loops = 0
+        for n in ast.walk(fn):
+            if isinstance(n, (ast.ListComp, ast.GeneratorExp, ast.SetComp)):
+                for g_ in n.generators:
+                    if over_lines(g_.iter):
+                        n_loops += 1
+                        if g_.ifs:
+                            bad.append((n, 'comprehension over the lines with a condition'))
+            elif isinstance(n, ast.For) and over_lines(n.iter):
+                n_loops += 1
+                conds = [x for s in n.body for x in ast.walk(s) if isinstance(x, (ast.If, ast.IfExp, ast.Continue))]
+                if conds:
+                    bad.append((n, 'loop over the lines that treats lines differently (%s)' % repo.norm(conds[0])[:50]))
+            elif isinstance(n, ast.Call) and isinstance(n.func, ast.Attribute) and n.func.attr in ('sub', 'subn') and \
+                    (dotted(n.func.value) == 're' or (isinstance(n.func.value, ast.Name))):
+                bad.append((n, 'regex substitution'))
+            elif isinstance(n, ast.Call) and isinstance(n.func, ast.Name) and n.func.id == 'filter':
+                bad.append((n, 'filter()'))
+        if bad:
+            for n, why in bad:
+                ctx.inst(rule, fid, repo.norm(n)[:80], False,
+                         '%s: lines of the merged text can be dropped on the way from the tool to the cell (a source line that looks like a marker switches the filter on; added '
+                         'lines after it are lost, or only one variant of a conflict is shown)' % why, n)
+        else:
+            ctx.inst(rule, fid, '%d loop(s) over lines, no filter' % n_loops, True, 'the text is passed on whole', fn)
+
+
+@extra('C02', 'R02.26', 'a diff entry can carry ANY JSON value, null included: the constructors of nbdime.diff_format that take a `value` pass it on without testing it (no assert / if / '
+       'raise on the value) -- `diff_dicts` builds op_add(key, None) for every key that appears with the value null', 2)
+def r02_26(ctx, rule):
+    repo = ctx.repo
+    n = 0
+    for fid, fn in sorted(repo.functions.items()):
+        if fid.split(':')[0] != 'nbdime.diff_format':
+            continue
+        ps = [a.arg for a in fn.args.args + fn.args.kwonlyargs]
+        if 'value' not in ps:
+            continue
+        n += 1
+        tested = []
+        for x in walk_no_nested(fn):
+            tests = []
+            if isinstance(x, ast.Assert):
+                tests = [x.test]
+            elif isinstance(x, (ast.If, ast.While, ast.IfExp)):
+                tests = [x.test]
+            for t in tests:
+                if any(isinstance(y, ast.Name) and y.id == 'value' for y in ast.walk(t)):
+                    tested.append(x)
+        ok = not tested
+        ctx.inst(rule, fid, 'value tested %d time(s)' % len(tested), ok, 'the value is passed on untested' if ok else
+                 '%s: a legitimate JSON value (null / false / 0 / "") is rejected or treated specially by the constructor, so the diff of two valid documents raises or '
+                 'loses the entry' % repo.norm(tested[0])[:60], tested[0] if tested else fn)
+    if n < 2:
+        raise AnalysisError('diff_format: fewer than two constructors with a `value` parameter found')
+
+
+@extra('C01', 'R01.24', 'diff-entry constructors accept any JSON value (C02 R02.26): a notebook that gains a key with the value null must still be diffable', 2)
+def r01_24(ctx, rule):
+    r02_26(ctx, rule)
+
+
+@extra('C03', 'R03.32', 'a healthy merge tool must not make the merge fail: no wait() on a piped tool before its output is read (C16 R16.23)', 1)
+def r03_32(ctx, rule):
+    r16_23(ctx, rule)
+
+
+@extra('C15', 'R15.13', 'the TypeScript patch functions never pass the items of a diff-supplied array as CALL ARGUMENTS (f(...xs), f.apply(o, xs)): the engine limits the number of '
+       'arguments (about 1.2e5 in V8: "RangeError: Maximum call stack size exceeded"), Python\'s patch has no such limit -- concat / a loop has none either', 3)
+def r15_13(ctx, rule):
+    from ..tsscan import TsFile
+    repo = ctx.repo
+    TS = 'packages/nbdime/src/'
+    n = 0
+    for rel in ('patch/generic.ts', 'patch/stringified.ts', 'patch/common.ts'):
+        f = TsFile(repo, TS + rel)
+        toks = f.toks
+        n += 1
+        bad = []
+        depth_open = []     # stack of '(' kinds: True if the paren opens a call argument list
+        for i, t in enumerate(toks):
+            if t.kind == 'punct' and t.text == '(':
+                prev = toks[i - 1] if i else None
+                is_call = prev is not None and (prev.kind == 'id' and prev.text not in ('if', 'for', 'while', 'switch', 'catch', 'function', 'return', 'typeof') or
+                                                prev.text in (')', ']', '>'))
+                depth_open.append(is_call)
+            elif t.kind == 'punct' and t.text == ')':
+                if depth_open:
+                    depth_open.pop()
+            spread = t.text == '...' or (t.text == '.' and i + 2 < len(toks) and toks[i + 1].text == '.' and toks[i + 2].text == '.' and
+                                         (i == 0 or toks[i - 1].text != '.'))
+            if spread and depth_open and depth_open[-1] and toks[i - 1].text in ('(', ','):
+                # a rest parameter in a declaration `function f(...xs)` is preceded by `function name (`: is_call is False there
+                bad.append((t.line, 'spread into call arguments'))
+            if t.kind == 'id' and t.text == 'apply' and i >= 1 and toks[i - 1].text == '.' and i + 1 < len(toks) and toks[i + 1].text == '(':
+                bad.append((t.line, 'Function.prototype.apply'))
+        ok = not bad
+        ctx.inst(rule, TS + rel, 'call arguments of the patch functions', ok, 'no array is spread into call arguments' if ok else
+                 'line %d: %s -- a list insertion of more items than the engine accepts as arguments makes the TypeScript patch throw where the Python patch succeeds' % bad[0],
+                 None, extra={'line': bad[0][0] if bad else None})
+    if n < 3:
+        raise AnalysisError('patch sources not found')
+
+
+@extra('C15', 'R15.14', 'applyDecisions (TypeScript) decides "same path as the previous decision" element by element (arraysEqual), as Python compares tuples: a path joined into a '
+       'string identifies [\'metadata\', \'a/b\'] with [\'metadata\', \'a\', \'b\'] and patches the wrong object', 1)
+def r15_14(ctx, rule):
+    from ..tsscan import TsFile
+    repo = ctx.repo
+    rel = 'packages/nbdime/src/merge/decisions.ts'
+    f = TsFile(repo, rel)
+    body = f.function_body('applyDecisions')
+    joins = [t for i, t in enumerate(body) if t.kind == 'id' and t.text == 'join' and i >= 1 and body[i - 1].text == '.' and i + 1 < len(body) and body[i + 1].text == '(']
+    ae = [t for i, t in enumerate(body) if t.kind == 'id' and t.text == 'arraysEqual' and i + 1 < len(body) and body[i + 1].text == '(']
+    if not joins and not ae:
+        raise AnalysisError('applyDecisions: neither arraysEqual nor a joined path found (comparison idiom not recognised)')
+    ok = not joins
+    ctx.inst(rule, rel + ':applyDecisions', 'path comparison', ok, 'paths are compared with arraysEqual (%d use(s))' % len(ae) if ok else
+             'line %d: a path is joined into a string inside applyDecisions: keys that contain the separator collide with nested keys, two decisions on different objects are '
+             'collected into one patch, the Python side (tuple comparison) applies them separately' % joins[0].line, None)
+
+
+@extra('C04', 'R04.14', 'what one side did to an item is merged whole or not at all: in _merge_lists / _merge_dicts a variable holding a side\'s sub-diff (taken from an entry\'s .diff) '
+       'is never replaced by a filtered version of itself -- a cell\'s diff is one unit (retyping a code cell = replace cell_type + remove outputs + remove execution_count), '
+       'dropping some of its entries leaves a cell of neither type', 2)
+def r04_14(ctx, rule):
+    repo = ctx.repo
+    for nm in ('_merge_lists', '_merge_dicts'):
+        fid = 'nbdime.merging.generic:' + nm
+        fn = repo.func(fid)
+        dvars = set()
+        for n in walk_no_nested(fn):
+            if isinstance(n, ast.Assign) and any(isinstance(x, ast.Attribute) and x.attr == 'diff' for x in ast.walk(n.value)) and \
+                    not any(isinstance(x, ast.Call) for x in ast.walk(n.value)):
+                for t in n.targets:
+                    for x in ast.walk(t):
+                        if isinstance(x, ast.Name) and isinstance(x.ctx, ast.Store):
+                            dvars.add(x.id)
+        bad = []
+        for n in walk_no_nested(fn):
+            if isinstance(n, ast.Assign) and len(n.targets) == 1 and isinstance(n.targets[0], ast.Name) and n.targets[0].id in dvars:
+                v = n.targets[0].id
+                if isinstance(n.value, (ast.Call, ast.ListComp, ast.GeneratorExp)) and any(isinstance(x, ast.Name) and x.id == v for x in ast.walk(n.value)):
+                    bad.append(n)
+        ok = not bad
+        ctx.inst(rule, fid, 'sub-diff variables %s' % sorted(dvars), ok, 'no sub-diff is rewritten before it is merged' if ok else
+                 '%s: the side\'s diff of the item is filtered before it is merged, so the merged item receives only part of a change that is consistent only as a whole' %
+                 repo.norm(bad[0])[:70], bad[0] if bad else fn)
+
+
+@extra('C10', 'R10.12', 'a conflict on a key of a mapping is registered with the strategy configured FOR THAT KEY: in the key loop of _merge_dicts the strategy argument of every '
+       'conflict() derives from the loop key (strategies.get(star_path(path + (key,)))), not from the containing dict -- /cells/*/attachments has its own (input) strategy, '
+       'its parent /cells/* has none', 3)
+def r10_12(ctx, rule):
+    repo = ctx.repo
+    fid = 'nbdime.merging.generic:_merge_dicts'
+    fn = repo.func(fid)
+    n = 0
+    for loop in [x for x in walk_no_nested(fn) if isinstance(x, ast.For) and isinstance(x.target, ast.Name)]:
+        confs = [c for s in loop.body for c in ast.walk(s) if isinstance(c, ast.Call) and isinstance(c.func, ast.Attribute) and c.func.attr in ('conflict', 'similar_insert')]
+        if not confs:
+            continue
+        derived = {loop.target.id}
+        changed = True
+        while changed:
+            changed = False
+            for s in loop.body:
+                for a in ast.walk(s):
+                    if isinstance(a, ast.Assign) and any(isinstance(x, ast.Name) and x.id in derived for x in ast.walk(a.value)):
+                        for t in a.targets:
+                            for x in ast.walk(t):
+                                if isinstance(x, ast.Name) and isinstance(x.ctx, ast.Store) and x.id not in derived:
+                                    derived.add(x.id)
+                                    changed = True
+        for c in confs:
+            n += 1
+            sa = c.args[3] if len(c.args) > 3 else next((k.value for k in c.keywords if k.arg == 'strategy'), None)
+            ok = sa is not None and any(isinstance(x, ast.Name) and x.id in derived for x in ast.walk(sa))
+            ctx.inst(rule, fid, repo.norm(c)[:80], ok, 'strategy of the key' if ok else
+                     'the conflict on this key is registered with `%s`, which does not depend on the key: the strategy configured for the key (e.g. the input strategy on '
+                     '/cells/*/attachments) is not applied, the conflict leaks to the level above or stays open' % (ast.unparse(sa) if sa is not None else '<none>'), c)
+    if n < 3:
+        raise AnalysisError('_merge_dicts: fewer than three conflict registrations found in the key loop')
+
+
+@extra('C10', 'R10.13', 'the decisions the strategies produced are final: after decide_merge_with_diff returned, decide_notebook_merge neither re-binds nor modifies the decision list '
+       'or its members (no store through it or through a loop over it, no mutating method, no callee that mutates it) -- a pass that runs AFTER the strategies settles only what '
+       'THEY left open, so the same conflict ends differently under use-local and under mergetool-then-choose-local', 1)
+def r10_13(ctx, rule):
+    from ..facts import MUTATORS
+    repo, cg = ctx.repo, ctx.cg
+    fid = 'nbdime.merging.notebooks:decide_notebook_merge'
+    fn = repo.func(fid)
+    src = [st for st in walk_no_nested(fn) if isinstance(st, ast.Assign) and isinstance(st.value, ast.Call) and
+           any(t[0] == 'func' and t[1].endswith(':decide_merge_with_diff') for t in cg.resolve(st.value.func, fn)) and isinstance(st.targets[0], ast.Name)]
+    if len(src) != 1:
+        raise AnalysisError('decide_notebook_merge: the decide_merge_with_diff assignment was not found')
+    D = src[0].targets[0].id
+    after = src[0].lineno
+    S = _summaries(ctx)
+    members = set()
+    for x in walk_no_nested(fn):
+        if isinstance(x, ast.For) and any(isinstance(y, ast.Name) and y.id == D for y in ast.walk(x.iter)):
+            members |= {y.id for y in ast.walk(x.target) if isinstance(y, ast.Name)}
+    bad = []
+    for x in walk_no_nested(fn):
+        if getattr(x, 'lineno', 0) <= after:
+            continue
+        tg = x.targets if isinstance(x, (ast.Assign, ast.Delete)) else [x.target] if isinstance(x, (ast.AugAssign, ast.AnnAssign)) else []
+        for t in tg:
+            if isinstance(t, ast.Name) and t.id == D:
+                bad.append((x, 're-binds the decision list'))
+            b = t
+            while isinstance(b, (ast.Attribute, ast.Subscript)):
+                b = b.value
+            if b is not t and isinstance(b, ast.Name) and (b.id == D or b.id in members):
+                bad.append((x, 'stores into %s' % ('the decision list' if b.id == D else 'a decision')))
+        if isinstance(x, ast.Call):
+            if isinstance(x.func, ast.Attribute) and x.func.attr in MUTATORS and isinstance(x.func.value, ast.Name) and (x.func.value.id == D or x.func.value.id in members):
+                bad.append((x, 'mutating method .%s()' % x.func.attr))
+            for cf in [t[1] for t in cg.resolve(x.func, fn) if t[0] == 'func']:
+                cfn = repo.functions.get(cf)
+                if cfn is None:
+                    continue
+                ps = [a.arg for a in cfn.args.args]
+                for i, a in enumerate(x.args):
+                    if isinstance(a, ast.Name) and (a.id == D or a.id in members) and i < len(ps) and (cf, ps[i]) in S.mutates:
+                        bad.append((x, 'passes it to %s, which modifies parameter %s' % (cf, ps[i])))
+                for k in x.keywords:
+                    if isinstance(k.value, ast.Name) and (k.value.id == D or k.value.id in members) and (cf, k.arg) in S.mutates:
+                        bad.append((x, 'passes it to %s, which modifies parameter %s' % (cf, k.arg)))
+    ok = not bad
+    ctx.inst(rule, fid, 'decision list `%s` after the generic merge' % D, ok, 'returned as the strategies left it' if ok else
+             '%s (%s): what the strategies decided is changed afterwards -- the strategy run and the open merge resolved by hand no longer agree' % (repo.norm(bad[0][0])[:60], bad[0][1]),
+             bad[0][0] if bad else src[0])
+
+
+@extra('C05', 'R05.16', 'the action "either" (applied as the LOCAL diff) is only ever registered for two diffs that were asserted equal: every decision created with the constant '
+       'action "either" sits in a function that asserts local_diff == remote_diff (or strict_equal) on the same two expressions -- an "either" over different values silently '
+       'prefers whichever side is called local, so swapping the sides changes the merge', 1)
+def r05_16(ctx, rule):
+    repo = ctx.repo
+    n = 0
+    for fid, fn in sorted(repo.functions.items()):
+        if not fid.startswith('nbdime.merging.'):
+            continue
+        for c in calls_in(fn, nested=False):
+            nm = c.func.attr if isinstance(c.func, ast.Attribute) else c.func.id if isinstance(c.func, ast.Name) else ''
+            if nm not in ('add_decision', 'MergeDecision'):
+                continue
+            act = next((k.value for k in c.keywords if k.arg == 'action'), None)
+            if act is None and nm == 'add_decision' and len(c.args) > 1:
+                act = c.args[1]
+            if const_val(act) != 'either':
+                continue
+            n += 1
+            ld = next((k.value for k in c.keywords if k.arg == 'local_diff'), c.args[2] if len(c.args) > 2 else None)
+            rd = next((k.value for k in c.keywords if k.arg == 'remote_diff'), c.args[3] if len(c.args) > 3 else None)
+            ok = False
+            if ld is not None and rd is not None:
+                l_, r_ = ast.unparse(ld), ast.unparse(rd)
+                if l_ == r_:
+                    ok = True
+                for a in walk_no_nested(fn):
+                    if isinstance(a, ast.Assert):
+                        for x in ast.walk(a.test):
+                            if isinstance(x, ast.Compare) and len(x.ops) == 1 and isinstance(x.ops[0], ast.Eq) and \
+                                    {ast.unparse(x.left), ast.unparse(x.comparators[0])} == {l_, r_}:
+                                ok = True
+                            if isinstance(x, ast.Call) and (dotted(x.func) or '').split('.')[-1] == 'strict_equal' and len(x.args) == 2 and \
+                                    {ast.unparse(x.args[0]), ast.unparse(x.args[1])} == {l_, r_}:
+                                ok = True
+            ctx.inst(rule, fid, repo.norm(c)[:80], ok, 'both diffs asserted equal' if ok else
+                     'an "either" decision is created here without the two diffs having been asserted equal: resolve_action applies the local diff, so for different diffs the '
+                     'local side wins silently and merge(b, l, r) differs from merge(b, r, l)', c)
+    if n == 0:
+        raise AnalysisError('no decision with the constant action "either" found (anchor moved)')
+
+
+def _r_difflib_callers(ctx, rule):
+    """SequenceMatcher matches items by hash and ==: 1, 1.0 and True (0.0 and -0.0) are the same item to it."""
+    from ..cfg import CFG, cond_guards
+    repo, cg = ctx.repo, ctx.cg
+    target = 'nbdime.diffing.seq_difflib:diff_sequence_difflib'
+    repo.func(target)
+    n = 0
+    for fid, fn in sorted(repo.functions.items()):
+        if not fid.startswith('nbdime.') or '.tests.' in fid or fid == target:
+            continue
+        calls = [c for c in calls_in(fn, nested=False) if ('func', target) in cg.resolve(c.func, fn)]
+        if not calls:
+            continue
+        g = None
+        ps = [a.arg for a in fn.args.args]
+        # (a) a string differ: both sequence arguments are parameters asserted to be str
+        str_asserted = set()
+        for a in walk_no_nested(fn):
+            if isinstance(a, ast.Assert):
+                for x in ast.walk(a.test):
+                    if isinstance(x, ast.Call) and isinstance(x.func, ast.Name) and x.func.id == 'isinstance' and len(x.args) == 2 and isinstance(x.args[0], ast.Name) and \
+                            ast.unparse(x.args[1]) in ('str', '(str,)'):
+                        str_asserted.add(x.args[0].id)
+        for c in calls:
+            n += 1
+            args = [a.id for a in c.args[:2] if isinstance(a, ast.Name)]
+            ok = len(args) == 2 and all(a in str_asserted for a in args)
+            why = 'both arguments are asserted to be strings' if ok else ''
+            if not ok:
+                g = g or CFG(fn)
+                for t, pol in cond_guards(g, repo.stmt_of(c)):
+                    if pol and isinstance(t, ast.Compare) and len(t.ops) == 1 and isinstance(t.ops[0], ast.Eq) and \
+                            {ast.unparse(t.left), ast.unparse(t.comparators[0])} == {'diff_sequence_algorithm', "'difflib'"}:
+                        ok = True
+                        why = 'only when the (non-default) algorithm switch says difflib'
+            ctx.inst(rule, fid, repo.norm(c)[:80], ok, why if ok else
+                     'difflib\'s SequenceMatcher is used on a sequence that is not known to consist of characters: it matches items by hash and ==, so an item that only changes '
+                     'its JSON type (1 -> 1.0 -> true, 0.0 -> -0.0) is aligned as unchanged and the change is missing from the diff', c)
+    if n < 2:
+        raise AnalysisError('fewer than two callers of diff_sequence_difflib found')
+
+
+@extra('C01', 'R01.25', 'the hash-based matcher (difflib) aligns characters only: every call of diff_sequence_difflib is in a differ whose arguments are asserted strings, or under the '
+       'explicit algorithm switch', 2)
+def r01_25(ctx, rule):
+    _r_difflib_callers(ctx, rule)
+
+
+@extra('C02', 'R02.27', 'the hash-based matcher (difflib) aligns characters only (as R01.25): for JSON items it conflates 1 / 1.0 / true', 2)
+def r02_27(ctx, rule):
+    _r_difflib_callers(ctx, rule)
+
+
+@extra('C12', 'R12.18', 'what a memoised function (lru_cache / cache) returns is never modified by its callers: the cache hands the SAME object to every later call, so a list that one '
+       'call extends is extended for the rest of the process', 2)
+def r12_18(ctx, rule):
+    from ..facts import MUTATORS
+    repo, cg = ctx.repo, ctx.cg
+    memo = {}
+    for fid, fn in repo.functions.items():
+        if not fid.startswith('nbdime.') or '.tests.' in fid:
+            continue
+        for d_ in fn.decorator_list:
+            if any(isinstance(x, (ast.Name, ast.Attribute)) and (dotted(x) or '').split('.')[-1] in ('lru_cache', 'cache', 'memoize') for x in ast.walk(d_)):
+                memo[fid] = ast.unparse(d_)
+    if not memo:
+        raise AnalysisError('no memoised function found (the text heuristics of nbdime.diffing.notebooks are cached)')
+    bad = {}
+    for fid, fn in sorted(repo.functions.items()):
+        if not fid.startswith('nbdime.') or '.tests.' in fid:
+            continue
+        held = {}
+        for n in walk_no_nested(fn):
+            if isinstance(n, ast.Assign) and isinstance(n.value, ast.Call) and len(n.targets) == 1 and isinstance(n.targets[0], ast.Name):
+                for t in cg.resolve(n.value.func, fn):
+                    if t[0] == 'func' and t[1] in memo:
+                        held[n.targets[0].id] = t[1]
+        if not held:
+            continue
+        for n in walk_no_nested(fn):
+            nm = None
+            if isinstance(n, ast.Call) and isinstance(n.func, ast.Attribute) and n.func.attr in MUTATORS and isinstance(n.func.value, ast.Name):
+                nm = n.func.value.id
+            elif isinstance(n, (ast.Assign, ast.AugAssign, ast.Delete)):
+                for t in (n.targets if not isinstance(n, ast.AugAssign) else [n.target]):
+                    b = t
+                    while isinstance(b, (ast.Subscript, ast.Attribute)):
+                        b = b.value
+                    if (b is not t or isinstance(n, ast.AugAssign)) and isinstance(b, ast.Name):
+                        nm = b.id
+            if nm in held:
+                bad.setdefault(held[nm], []).append((fid, n))
+    for m, deco in sorted(memo.items()):
+        b = bad.get(m, [])
+        ctx.inst(rule, m, '@%s' % deco[:40], not b, 'no caller modifies the result' if not b else
+                 '%s: `%s` modifies the object the cache hands out -- the change is seen by every later call in the process' % (b[0][0], repo.norm(b[0][1])[:60]),
+                 b[0][1] if b else repo.functions[m])
+
+
+@extra('C12', 'R12.19', 'no class keeps a mutable container in its CLASS body that its methods grow through `self` (self.x += [...], self.x.append(...), self.x[k] = v without a prior '
+       'self.x = ... in __init__): `+=` on a list extends the one class-level object in place and every instance -- past and future -- shares it; no reset can reach it', 1)
+def r12_19(ctx, rule):
+    from ..facts import MUTATORS
+    repo = ctx.repo
+    n_cls = 0
+    for cid, c in sorted(repo.classes.items()):
+        if not cid.startswith('nbdime.') or '.tests.' in cid or cid.startswith('nbdime.webapp'):     # handler classes: C20 R20.13
+            continue
+        n_cls += 1
+        mut = {}
+        for st in c.body:
+            if isinstance(st, ast.Assign) and len(st.targets) == 1 and isinstance(st.targets[0], ast.Name) and \
+                    (isinstance(st.value, (ast.List, ast.Dict, ast.Set, ast.ListComp, ast.DictComp, ast.SetComp)) or
+                     (isinstance(st.value, ast.Call) and dotted(st.value.func) in ('list', 'dict', 'set', 'defaultdict', 'collections.defaultdict', 'OrderedDict'))):
+                mut[st.targets[0].id] = st
+        if not mut:
+            continue
+        for m in c.body:
+            if not isinstance(m, (ast.FunctionDef, ast.AsyncFunctionDef)) or not m.args.args:
+                continue
+            me = m.args.args[0].arg
+            rebound = {t.attr for x in walk_no_nested(m) if isinstance(x, ast.Assign) for t in x.targets
+                       if isinstance(t, ast.Attribute) and isinstance(t.value, ast.Name) and t.value.id == me}
+            for x in walk_no_nested(m):
+                tgt = None
+                if isinstance(x, ast.AugAssign) and isinstance(x.target, ast.Attribute) and isinstance(x.target.value, ast.Name) and x.target.value.id == me:
+                    tgt = x.target.attr
+                    if tgt in rebound and m.name == '__init__' and False:
+                        tgt = None
+                elif isinstance(x, ast.Call) and isinstance(x.func, ast.Attribute) and x.func.attr in MUTATORS and isinstance(x.func.value, ast.Attribute) and \
+                        isinstance(x.func.value.value, ast.Name) and x.func.value.value.id == me:
+                    tgt = x.func.value.attr
+                elif isinstance(x, (ast.Assign, ast.Delete)):
+                    for t in x.targets:
+                        if isinstance(t, ast.Subscript) and isinstance(t.value, ast.Attribute) and isinstance(t.value.value, ast.Name) and t.value.value.id == me:
+                            tgt = t.value.attr
+                if tgt in mut and not (tgt in rebound and not isinstance(x, ast.AugAssign) and m.name != '__init__'):
+                    # a plain rebinding self.x = ... elsewhere does not help an in-place += that runs before it; only flag when no rebinding precedes in this method
+                    pre = [y for y in walk_no_nested(m) if isinstance(y, ast.Assign) and y.lineno < x.lineno and
+                           any(isinstance(t, ast.Attribute) and t.attr == tgt and isinstance(t.value, ast.Name) and t.value.id == me for t in y.targets)]
+                    if pre:
+                        continue
+                    ctx.inst(rule, cid, '%s = %s (class body)' % (tgt, ast.unparse(mut[tgt].value)[:30]), False,
+                             '%s.%s: `%s` modifies the container defined in the class body: it is one object for all instances, so what one configuration adds stays for '
+                             'every later one in the process' % (cid, m.name, repo.norm(x)[:60]), x)
+    ctx.inst(rule, 'nbdime', '%d class(es) examined' % n_cls, True, 'class-level containers are not grown through instances', None, nontrivial=True)
+    if n_cls < 5:
+        raise AnalysisError('fewer classes than expected')
+
+
+def _r_no_id_keys(ctx, rule):
+    repo = ctx.repo
+    n_fn = 0
+    for fid, fn in sorted(repo.functions.items()):
+        if not fid.startswith('nbdime.') or '.tests.' in fid:
+            continue
+        n_fn += 1
+        fmt = set()
+        for x in walk_no_nested(fn):
+            if isinstance(x, (ast.JoinedStr, ast.FormattedValue)) or (isinstance(x, ast.BinOp) and isinstance(x.op, ast.Mod)) or \
+                    (isinstance(x, ast.Call) and isinstance(x.func, ast.Attribute) and x.func.attr in ('format', 'debug', 'info', 'warning', 'error', 'exception')) or \
+                    (isinstance(x, ast.Call) and isinstance(x.func, ast.Name) and x.func.id in ('print', 'repr', 'str', 'hex')):
+                fmt |= {id(y) for y in ast.walk(x)}
+        for x in walk_no_nested(fn):
+            if isinstance(x, ast.Call) and isinstance(x.func, ast.Name) and x.func.id == 'id' and len(x.args) == 1 and id(x) not in fmt:
+                ctx.inst(rule, fid, repo.norm(x)[:60], False,
+                         'id() of a value is used as data (a cache key, a set member): an address identifies an object only while it is alive -- once the object is freed the '
+                         'next object at the same address inherits its cache entry, so a result computed for one input is returned for another', x)
+    ctx.inst(rule, 'nbdime', 'id() as data', True, '%d function(s) scanned, object addresses are not used as keys' % n_fn, None, nontrivial=True)
+
+
+@extra('C02', 'R02.28', 'no result is cached under the ADDRESS of its input (id(x) as a key): diff and patch helpers depend on the value of their arguments only', 1)
+def r02_28(ctx, rule):
+    _r_no_id_keys(ctx, rule)
+
+
+@extra('C12', 'R12.20', 'no result is cached under the address of its input (as R02.28): an address outlives the object only by accident', 1)
+def r12_20(ctx, rule):
+    _r_no_id_keys(ctx, rule)
+
+
+@extra('C07', 'R07.19', 'where equal characters are trimmed from both ends before aligning, the tail scan is bounded by the head count (C01 R01.11): overlapping head and tail make the '
+       'line diff drop or invent text', 1)
+def r07_19(ctx, rule):
+    from ..trim import check_trims
+    check_trims(ctx, rule, ['nbdime.diffing.'])
